@@ -752,7 +752,7 @@ func (view *View) Limit(ctx context.Context, scope *ReferenceScope, clause parse
 		value.Discard(number)
 
 		if 100 < percentage {
-			limit = 100
+			limit = view.RecordLen() + view.offset
 		} else if percentage < 0 {
 			limit = 0
 		} else {
